@@ -444,3 +444,43 @@ class UseScriptedPool:
     def __exit__(self, *a):
         self.sift.mp = self.orig
         ScriptedPool.schedule = None
+
+
+# ---------------------------------------------------------------------------------------------
+# tracing of the arrays handed to get_next_imf (masked sift jobs run in pool workers)
+
+def _traced_gni(X, *args, **kw):
+    if _TRACE_DIR:
+        with open(os.path.join(_TRACE_DIR, 'gni-%d.ndjson' % os.getpid()), 'a') as f:
+            f.write(_json.dumps({'pid': os.getpid(), 'x': [float(v) for v in np.asarray(X).ravel()]}) + '\n')
+    return _ORIG['get_next_imf'](X, *args, **kw)
+
+
+class InputTrace:
+    """trace every array passed to emd.sift.get_next_imf, in all processes"""
+
+    def __init__(self, emd, trace_dir):
+        self.sift = emd.sift
+        self.dir = trace_dir
+
+    def __enter__(self):
+        global _TRACE_DIR
+        os.makedirs(self.dir, exist_ok=True)
+        for f in os.listdir(self.dir):
+            os.unlink(os.path.join(self.dir, f))
+        _TRACE_DIR = self.dir
+        _ORIG['get_next_imf'] = self.sift.get_next_imf
+        self.sift.get_next_imf = _traced_gni
+        return self
+
+    def __exit__(self, *a):
+        global _TRACE_DIR
+        self.sift.get_next_imf = _ORIG['get_next_imf']
+        _TRACE_DIR = None
+
+    def read(self):
+        ev = []
+        for f in sorted(os.listdir(self.dir)):
+            for line in open(os.path.join(self.dir, f)):
+                ev.append(_json.loads(line))
+        return ev
